@@ -83,6 +83,18 @@ def book (dflt evid : Id) (h : HRes) : Int × Id :=
   let f' := if hasDefault f then clrDefault f else f
   (Int.ofNat (if d' != 0 then setDefault f' else f'), d')
 
+/-- **what "the default-event bookkeeping follows the handler's returned flags" means**, stated without reference to
+    how it is computed.  `dflt` = default id before, `left` = event id as the handler left it (0 = none), `v` = the
+    handler's answer, `ret` = value handed to the caller, `dflt'` = default id afterwards:
+    * an error is passed through and the default event stays;
+    * otherwise the default id becomes `left` exactly when the answer carries the `Default` flag (bit 0), else it stays;
+    * every other flag is handed through unchanged (`ret / 2 = v / 2`);
+    * the returned value carries `Default` exactly when a default event exists afterwards. -/
+def Follows (dflt left : Id) (v ret : Int) (dflt' : Id) : Prop :=
+  if v < 0 then ret = v ∧ dflt' = dflt
+  else
+    dflt' = (if v % 2 = 1 then left else dflt) ∧ 0 ≤ ret ∧ ret / 2 = v / 2 ∧ (ret % 2 = 1 ↔ dflt' ≠ 0)
+
 /-- answer of the library's built-in fallback handler (`unknownEvent`, installed by `mpt_dispatch_init`) to an event
     with id `evid` and message `msg`: an unknown id fails and gives up the default event (the id is cleared);
     the default event without a message fails likewise; a message of type 0 just fails -/
@@ -114,15 +126,33 @@ def msgCommand : Byte := 0x04
 /-- non-empty prefixes of a text -/
 def prefixes (t : List Byte) : List (List Byte) := (List.range t.length).map fun k => t.take (k + 1)
 
+/-- blank characters that separate arguments (white space other than form feed) -/
+def isBlank (b : Byte) : Bool := b == 0x09 || b == 0x20 || b == 0x0a || b == 0x0d || b == 0x0b
+/-- quote characters of the argument syntax -/
+def isQuoteCh (b : Byte) : Bool := b == 0x27 || b == 0x22
+
+/-- the command word of a message whose arguments are separated by white space: the text after the leading white
+    space up to the first white-space character (or terminator) -/
+def wsWord (payload : List Byte) : List Byte :=
+  (payload.dropWhile isSpace).takeWhile fun c => !isSpace c && c != 0
+
+/-- the plain case of white-space separated arguments: a non-empty command word without quote characters that is
+    followed by a blank or ends the message.  There the command word is exactly `wsWord`. -/
+def plainWord (payload : List Byte) : Bool :=
+  let w := wsWord payload
+  let after := (payload.dropWhile isSpace).dropWhile fun c => !isSpace c && c != 0
+  !w.isEmpty && !w.any isQuoteCh && (match after with | [] => true | c :: _ => isBlank c)
+
 /-- Acceptable readings of a command message: `none` = "carries no command text" (the dispatch must fail
     without invoking anybody), `some id` = hash of the command text.
     The message is a 2-byte header `(type, arg)` and a payload.  For a `Command` header with a non-zero `arg`
     that byte separates the arguments and the command text is the first argument after leading white space;
     otherwise the text ends at the first zero byte.  A payload that is all white space has no text; reading
     the white space itself as the text is tolerated.
-    A separator that is not a graphic character stands for "split at white space, honour quotes": the quoting
-    rules are not part of the property, so any non-empty prefix of the payload after its leading white space is
-    accepted as the first argument there. -/
+    A separator that is not a graphic character stands for "split at white space, honour quotes": the command text
+    is the word after the leading white space, up to the first blank (`plainWord`/`wsWord`: exactly one reading).
+    The quoting rules, a form feed or a zero byte right behind the word are not part of the property: for such
+    payloads any non-empty prefix of the payload after its leading white space is accepted as the first argument. -/
 def cmdIds (msg : List Byte) : List (Option Id) :=
   match msg with
   | ty :: arg :: payload =>
@@ -136,6 +166,7 @@ def cmdIds (msg : List Byte) : List (Option Id) :=
         let u := payload.takeWhile (· != sep)
         if u.isEmpty then [none] else [none, some (hashDjb2 u)]
       else [some (hashDjb2 t)]
+    else if plainWord payload then [some (hashDjb2 (wsWord payload))]
     else
       let t := payload.dropWhile isSpace
       if t.isEmpty then none :: (prefixes payload).map (fun u => some (hashDjb2 u))
